@@ -21,5 +21,12 @@ META.update({
  "C12": {"text": "Generated histories leaving empty/holey/full/single-block pages and interior aligned blocks, interleaved with heap walks (one third with a generated early stop); the multiset of visited ranges is compared with the model's live set per heap, incl. per-area used counts and heap descriptors.",
          "design_ref": "DESIGN.md §5 C12", "note": NOTE_HIST, "technique": PBT},
 })
+
+META.update({
+ "C11": {"text": "Generated (configuration x workload shape x repetition count) cases run the workload 4-9 times in one process, each repetition ending in free-all + forced collect; the OS shim's mapping table and mincore residency are the oracle (nothing obtained directly from the OS still mapped at quiescence; mapped bytes / mapping count / resident pages do not grow between repetitions). Found and now guards two repaired defects (F1 OS regions never unmapped, F8 a new arena per > 64 MiB allocation).",
+         "design_ref": "DESIGN.md §5 C11, §6 F1/F8", "note": NOTE_HIST + " The mapping table only sees mappings made through the interposed mmap/munmap of src/prim/unix/prim.c.", "technique": "property-based testing with an interposed OS layer: generated repeated workloads, footprint oracle from a recorded mapping table"},
+ "C13": {"text": "A pairwise covering array over 16 commit/purge/arena/reclaim options (then random vectors) is crossed with generated C01/C03/C04/C05/C12 histories and virtual-clock ticks; all those oracles run unchanged and the OS shim additionally asserts that no purge/decommit/unmap range touches a live model block; debug/secure builds revoke access on decommit so touching decommitted memory faults.",
+         "design_ref": "DESIGN.md §5 C13", "note": NOTE_HIST + " Options are applied with mi_option_set before the first allocation of the child process (not through the environment).", "technique": "property-based testing: pairwise covering array of option vectors x generated histories, OS-call policing through an interposed shim"},
+})
 ALL = ["C%02d" % i for i in range(1, 21)]
 NOT_APPLICABLE = [{"property_id": p, "reason": "check not built yet in this revision (planned, see DESIGN.md §10); not claimed"} for p in ALL if p not in CHECKS]
